@@ -5,6 +5,7 @@
 #include <ksi/net_async.h>
 #include <ksi/net_ha.h>
 #include <ksi/blocksigner.h>
+#include <ksi/tree_builder.h>
 #include <curl/curl.h>
 #include <sys/types.h>
 #include <sys/socket.h>
@@ -355,6 +356,14 @@ int kx_net_dispatch(char **tok, int ntok, int *handled) {
 	if (is("set_aggr")) return KSI_CTX_setAggregator(kx_ctx(atoi(tok[1])), nz(tok[2]), nz(tok[3]), nz(tok[4]));
 	if (is("set_ext")) return KSI_CTX_setExtender(kx_ctx(atoi(tok[1])), nz(tok[2]), nz(tok[3]), nz(tok[4]));
 	if (is("set_puburl")) return KSI_CTX_setPublicationUrl(kx_ctx(atoi(tok[1])), nz(tok[2]));
+	if (is("pubfilefetch")) { /* pubfilefetch <c>: the context obtains the publications file from its configured URL (or its cache) and verifies it */
+		KSI_CTX *c = kx_ctx(atoi(tok[1])); KSI_PublicationsFile *pf = NULL; KSI_LIST(KSI_PublicationRecord) *pl = NULL; int rc = KSI_receivePublicationsFile(c, &pf), rv = -1;
+		if (rc == KSI_OK && pf) { rv = KSI_verifyPublicationsFile(c, pf); if (KSI_PublicationsFile_getPublications(pf, &pl) == KSI_OK) kx_out(" npub=%zu", KSI_PublicationRecordList_length(pl)); }
+		else if (rc == KSI_OK) kx_out(" nofile=1");
+		if (rc != KSI_OK && pf) kx_out(" objonerr=1");
+		kx_out(" verify=%d", rv);
+		KSI_PublicationsFile_free(pf);
+		return rc != KSI_OK ? rc : rv; }
 	if (is("set_conf_cb")) { KSI_CTX *c = kx_ctx(atoi(tok[1])); int r = KSI_CTX_setOption(c, KSI_OPT_AGGR_CONF_RECEIVED_CALLBACK, (void *)conf_cb); if (r) return r; return KSI_CTX_setOption(c, KSI_OPT_EXT_CONF_RECEIVED_CALLBACK, (void *)conf_cb); }
 	if (is("sign")) { /* sign <c> <s> <imprint> [lvl=n] [api=create|aggregated] */
 		KSI_CTX *c = kx_ctx(atoi(tok[1])); int rc; KSI_DataHash *h = hash_arg(c, tok[3], &rc); KSI_Signature *s = NULL; KSI_Signature **slot = kx_sigslot(atoi(tok[2])); const char *api = kx_kv("api");
@@ -406,6 +415,34 @@ ext_done:
 		if (rc != KSI_OK && e) kx_out(" objonerr=1");
 		if (rc == KSI_OK && e) out_sig("sig", e);
 		KSI_Signature_free(*slot); *slot = e; return rc; }
+	if (is("signchain")) { /* signchain <c> <s> <nleaves> <leaf index> <level> [meta=1]: a local tree of <nleaves> hashes (all at <level>), the chain of one leaf, KSI_Signature_signAggregationChain */
+		KSI_CTX *c = kx_ctx(atoi(tok[1])); KSI_Signature **slot = kx_sigslot(atoi(tok[2])); int n = atoi(tok[3]), idx = atoi(tok[4]), lvl = atoi(tok[5]), i, rc;
+		KSI_TreeBuilder *tb = NULL; KSI_TreeLeafHandle *leaf = NULL; KSI_AggregationHashChain *chn = NULL; KSI_Signature *s = NULL; KSI_DataHash *mine = NULL;
+		static unsigned char before[70000], after[70000]; size_t bl = 0, al = 0; int wb, wa;
+		rc = KSI_TreeBuilder_new(c, KSI_HASHALG_SHA2_256, &tb); if (rc) { kx_out(" stage=tree"); return rc; }
+		for (i = 0; i < n && rc == KSI_OK; i++) { KSI_DataHash *dh = NULL; char d[64]; snprintf(d, sizeof d, "signchain-leaf-%d-%d-%d", n, i, lvl);
+			rc = KSI_DataHash_create(c, d, strlen(d), KSI_HASHALG_SHA2_256, &dh); if (rc) break;
+			rc = KSI_TreeBuilder_addDataHash(tb, dh, lvl, i == idx ? &leaf : NULL); if (i == idx && rc == KSI_OK) mine = KSI_DataHash_ref(dh); KSI_DataHash_free(dh);
+			if (rc == KSI_OK && kx_kvl("meta", 0) && i == idx) { KSI_MetaData *md = NULL; KSI_Utf8String *id = NULL; KSI_MetaData_new(c, &md); KSI_Utf8String_new(c, "chain-client", 13, &id); KSI_MetaData_setClientId(md, id);
+				rc = KSI_TreeBuilder_addMetaData(tb, md, lvl, NULL); KSI_MetaData_free(md); KSI_Utf8String_free(id); } }
+		if (rc == KSI_OK) rc = KSI_TreeBuilder_close(tb);
+		if (rc == KSI_OK) rc = KSI_TreeLeafHandle_getAggregationChain(leaf, &chn);
+		if (rc != KSI_OK) { kx_out(" stage=tree"); goto sc_done; }
+		{ KSI_DataHash *r0 = NULL, *r1 = NULL; int l0 = -1, l1 = -1; const unsigned char *i0 = NULL, *i1 = NULL; size_t n0 = 0, n1 = 0;
+		  wb = KSI_AggregationHashChain_aggregate(chn, lvl, &l0, &r0);
+		  rc = KSI_Signature_signAggregationChain(c, lvl, chn, &s);
+		  wa = KSI_AggregationHashChain_aggregate(chn, lvl, &l1, &r1);
+		  if (wb != KSI_OK || wa != KSI_OK) kx_out(" chainaggr=ERR%d/%d", wb, wa);
+		  else { KSI_DataHash_getImprint(r0, &i0, &n0); KSI_DataHash_getImprint(r1, &i1, &n1); kx_outhex("root", i0, n0); kx_out(" rootlevel=%d", l0);
+			if (l0 != l1 || n0 != n1 || memcmp(i0, i1, n0)) kx_out(" chainmodified=1"); }   /* the chain stays the caller's, unchanged */
+		  KSI_DataHash_free(r0); KSI_DataHash_free(r1); (void)bl; (void)al; (void)before; (void)after; }
+		if (rc != KSI_OK) out_ksi_err(c);
+		if (rc != KSI_OK && s) kx_out(" objonerr=1");
+		if (mine) { const unsigned char *imp; size_t il; KSI_DataHash_getImprint(mine, &imp, &il); kx_outhex("leaf", imp, il); }
+		if (rc == KSI_OK && s) out_sig("sig", s);
+sc_done:
+		KSI_DataHash_free(mine); KSI_AggregationHashChain_free(chn); KSI_TreeLeafHandle_free(leaf); KSI_TreeBuilder_free(tb);
+		KSI_Signature_free(*slot); *slot = s; return rc; }
 	if (is("blocksign")) { /* blocksign <c> <nleaves> <masking 0|1> <meta 0|1> <seed>: whole block signer life cycle; signatures of all leaves are verified internally */
 		KSI_CTX *c = kx_ctx(atoi(tok[1])); int n = atoi(tok[2]), masking = atoi(tok[3]), meta = atoi(tok[4]); unsigned seed = (unsigned)atoi(tok[5]); int i, rc; int nsig = 0; int cont = (int)kx_kvl("cont", 0), retry = (int)kx_kvl("retry", 0), retried_leaf = 0, firsterr = 0, nfail = 0;
 		KSI_BlockSigner *bs = NULL; KSI_BlockSignerHandle *h[64]; KSI_DataHash *prev = NULL; KSI_OctetString *iv = NULL; unsigned char ivb[32];
